@@ -479,6 +479,15 @@ Definition timer_rates (m : mgr) : option (list (addr * N)) :=
   then Some (map (fun kp => (fst kp, match (if seeder then p_drate (snd kp) else p_urate (snd kp)) with Some r => r | None => 0 end))
                  (m_peers m))
   else None.
+(* new_optimistic_peers: one peer drawn at random among those we choke that are interested, none if there is none *)
+Definition optimistic_candidates (m : mgr) : list addr :=
+  map fst (filter (fun kp => p_am_choked (snd kp) && p_interested (snd kp)) (m_peers m)).
+Definition optimistic_pick_ok (m : mgr) (pick : list addr) : bool :=
+  match optimistic_candidates m, pick with
+  | [], [] => true
+  | _ :: _, [a] => mem_addr a (optimistic_candidates m)
+  | _, _ => false
+  end.
 (* `order`: the rates in the order the code's iteration yields them; `pick`: what new_optimistic_peers draws (used in
    round 0 only).  The round advances first; nothing else happens while rates are missing; the broadcast is the map *)
 Definition timer_tick (m : mgr) (order : list (addr * N)) (pick : list addr) : result (mgr * option (list (addr * bool))) :=
